@@ -459,7 +459,9 @@ impl TyTransformer for ConstTyTransformer<'_> {
 
     #[inline]
     fn vec(&self, ty: &Ty) -> CodegenTy {
-        CodegenTy::Array(Arc::from(self.codegen_item_ty(&ty.kind)), 0)
+        // only the outermost list of a const is an array (def_lit fills in its length); a list nested in
+        // it is a Vec, like the lists nested in a const set or map
+        CodegenTy::Array(Arc::from(self.dyn_codegen_item_ty(&ty.kind)), 0)
     }
 
     #[inline]
